@@ -184,7 +184,7 @@ def orientation_lists(maxlen=4):
             yield list(combo)
 
 
-def eval_list_test(expr, olist, L, defs, depth=0):
+def eval_list_test(expr, olist, L, defs, depth=0, env0=None):
     """Value of `expr` when the local `olist` holds the list L (a tiny total interpreter: the list itself, count / index /
     len / in / set / all / any / comparisons / and-or-not / constants; single-definition temporaries are looked
     through).  Raises ListUnsupported for anything else."""
@@ -217,6 +217,12 @@ def eval_list_test(expr, olist, L, defs, depth=0):
                 if isinstance(e.op, ast.Or) and v:
                     return v
             return v
+        if isinstance(e, ast.BinOp) and isinstance(e.op, (ast.Add, ast.Sub)):
+            a_, b_ = ev(e.left, env, d), ev(e.right, env, d)
+            try:
+                return a_ + b_ if isinstance(e.op, ast.Add) else a_ - b_
+            except TypeError:
+                raise ListUnsupported("TypeError in " + norm(e))
         if isinstance(e, ast.Subscript):
             base = ev(e.value, env, d)
             try:
@@ -236,6 +242,10 @@ def eval_list_test(expr, olist, L, defs, depth=0):
                     return ev(e.func.value, env, d).index(ev(e.args[0], env, d))
                 except ValueError:
                     raise ListUnsupported("index of a missing element")
+            if isinstance(e.func, ast.Name) and e.func.id == "range" and 1 <= len(e.args) <= 3:
+                return list(range(*[ev(x, env, d) for x in e.args]))
+            if isinstance(e.func, ast.Name) and e.func.id == "zip" and e.args:
+                return list(zip(*[ev(x, env, d) for x in e.args]))
             if isinstance(e.func, ast.Name) and e.func.id in ("len", "set", "list", "sorted", "any", "all", "bool", "sum", "max", "min", "tuple", "reversed") and e.args:
                 a = [ev(x, env, d) for x in e.args]
                 try:
@@ -244,12 +254,16 @@ def eval_list_test(expr, olist, L, defs, depth=0):
                 except (TypeError, ValueError) as ex:
                     raise ListUnsupported(type(ex).__name__)
             raise ListUnsupported(norm(e)[:40])
-        if isinstance(e, (ast.GeneratorExp, ast.ListComp, ast.SetComp)) and len(e.generators) == 1 and isinstance(e.generators[0].target, ast.Name):
+        if isinstance(e, (ast.GeneratorExp, ast.ListComp, ast.SetComp)) and len(e.generators) == 1 and (isinstance(e.generators[0].target, ast.Name) or (isinstance(e.generators[0].target, ast.Tuple) and all(isinstance(t_, ast.Name) for t_ in e.generators[0].target.elts))):
             g_ = e.generators[0]
             out = []
             for item in ev(g_.iter, env, d):
                 env2 = dict(env)
-                env2[g_.target.id] = item
+                if isinstance(g_.target, ast.Name):
+                    env2[g_.target.id] = item
+                else:
+                    for t_, v_ in zip(g_.target.elts, item):
+                        env2[t_.id] = v_
                 if all(ev(c, env2, d) for c in g_.ifs):
                     out.append(ev(e.elt, env2, d))
             return set(out) if isinstance(e, ast.SetComp) else out
@@ -272,7 +286,7 @@ def eval_list_test(expr, olist, L, defs, depth=0):
             return ev(e.body, env, d) if ev(e.test, env, d) else ev(e.orelse, env, d)
         raise ListUnsupported(norm(e)[:40])
 
-    return ev(expr, {}, depth)
+    return ev(expr, dict(env0 or {}), depth)
 
 
 def scaffold_orientation_list(pa):
